@@ -46,58 +46,8 @@ func ruleProvMeta(c *Ctx, r *Rep) {
 		return
 	}
 	fk := c.FuncKey(fn)
-	// the artifact file that is read
-	var openArg, statArg []string
-	var readAll *ssa.Call
-	for _, ci := range callsIn(fn) {
-		cc := ci.Common()
-		if cc.IsInvoke() && cc.Method.Name() == "Open" {
-			openArg = pv.Origins(cc.Args[0])
-		}
-		if calleeFullName(ci) == "io.ReadAll" {
-			readAll = ci.(*ssa.Call)
-		}
-	}
-	okName := len(openArg) >= 1
-	for _, x := range openArg {
-		if !(strings.Contains(x, ".configFileName[:]") && strings.HasSuffix(x, "|K(\".pem\"))")) {
-			okName = false
-		}
-	}
-	r.Check(okName && readAll != nil, "artifact-file-read|"+fk, c.FnPos(fn), "the artifact read is <config path without extension>.pem of this entity", strings.Join(openArg, " , "))
-	content := ""
-	if readAll != nil {
-		content = strings.Join(pv.Origins(readAll), ",") + "#0"
-	}
-	for _, owner := range []string{"db.Metadata", "filesystem.fsMetadata"} {
-		for _, fs := range storesIntoType(c, fn, owner) {
-			f := fs.field[strings.LastIndex(fs.field, ".")+1:]
-			o := pv.Origins(fs.st.Val)
-			joined := strings.Join(o, " , ")
-			switch f {
-			case "LastConfigUpdate":
-				ok := len(o) == 1 && strings.Contains(o[0], "ModTime(I:io/fs.StatFS.Stat(") && strings.Contains(o[0], "|P("+fk+".configPath))#0)")
-				r.Check(ok, "config-mtime|"+fk, c.Pos(fs.st.Pos()), "ModTime of Stat(configuration path)", joined)
-			case "LastBuild":
-				ok := len(o) == 1 && strings.HasPrefix(o[0], "I:os.FileInfo.ModTime(I:filesystem.Filesystem.Stat(")
-				if ok {
-					// same name as the file that is read
-					for _, ci := range callsIn(fn) {
-						cc := ci.Common()
-						if cc.IsInvoke() && cc.Method.Name() == "Stat" && strings.HasSuffix(typeShort(c, cc.Value.Type()), "Filesystem") {
-							statArg = pv.Origins(cc.Args[0])
-						}
-					}
-					ok = strings.Join(statArg, ",") == strings.Join(openArg, ",")
-				}
-				r.Check(ok, "artifact-mtime|"+fk, c.Pos(fs.st.Pos()), "ModTime of Filesystem.Stat(<the artifact file that is read>)", joined)
-			case "LastConfigHash":
-				ok := len(o) == 1 && strings.HasPrefix(o[0], "(*encoding/base64.Encoding).DecodeString(G(encoding/base64.StdEncoding)|") && content != "" && strings.Contains(o[0], strings.TrimSuffix(content, "#0"))
-				r.Check(ok, "stored-hash|"+fk, c.Pos(fs.st.Pos()), "StdEncoding.DecodeString of a part of the artifact file's content", joined)
-			}
-		}
-	}
-	// the imported artifact comes from the same content
+	// the content the artifact is decoded from: the argument of the call that yields a BuildArtifact
+	var decodeCall ssa.CallInstruction
 	for _, ci := range callsIn(fn) {
 		f := ci.Common().StaticCallee()
 		if f == nil || !c.InModule(f) {
@@ -105,8 +55,106 @@ func ruleProvMeta(c *Ctx, r *Rep) {
 		}
 		res := f.Signature.Results()
 		if res.Len() == 1 && strings.HasSuffix(typeShort(c, res.At(0).Type()), "db.BuildArtifact") {
-			o := pv.Origins(ci.Common().Args[len(ci.Common().Args)-1])
-			r.Check(len(o) >= 1 && content != "" && strings.Contains(strings.Join(o, ","), content), "artifact-from-file|"+fk, c.Pos(ci.Pos()), "the artifact is decoded from the content of that file", strings.Join(o, " , "))
+			decodeCall = ci
+		}
+	}
+	if decodeCall == nil {
+		r.Undecided("anchor:artifact-decoder|"+fk, c.FnPos(fn), "no call that decodes a BuildArtifact from the file's content")
+		return
+	}
+	var contents []string
+	for _, o := range pv.Origins(decodeCall.Common().Args[len(decodeCall.Common().Args)-1]) {
+		if o != "K(nil)" {
+			contents = append(contents, o)
+		}
+	}
+	content, reader, openName := "", "", ""
+	if len(contents) == 1 && strings.HasPrefix(contents[0], "io.ReadAll(") && strings.HasSuffix(contents[0], ")#0") {
+		content = contents[0]
+		reader = strings.TrimSuffix(strings.TrimPrefix(content, "io.ReadAll("), ")#0")
+	}
+	r.Check(content != "", "artifact-from-file|"+fk, c.Pos(decodeCall.Pos()), "the artifact is decoded from what io.ReadAll returned for one file", strings.Join(contents, " , "))
+	// all of the file: the reader handed to ReadAll is the opened file itself, not a limited or wrapped view of it
+	whole := strings.HasPrefix(reader, "I:") && strings.Contains(reader, ".Open(") && strings.HasSuffix(reader, ")#0") && len(splitTop(reader, ',')) == 1
+	if whole {
+		inner := reader[strings.Index(reader, ".Open(")+len(".Open(") : len(reader)-len(")#0")]
+		parts := splitTop(inner, '|')
+		if len(parts) == 2 {
+			openName = parts[1]
+		} else {
+			whole = false
+		}
+	}
+	r.Check(whole, "artifact-read-whole|"+fk, c.Pos(decodeCall.Pos()), "io.ReadAll of the opened artifact file itself (keys and requests of any size are kept)", reader)
+	okName := openName != ""
+	if okName {
+		okName = strings.Contains(openName, ".configFileName[:]") && strings.HasSuffix(openName, "|K(\".pem\"))")
+	}
+	r.Check(okName, "artifact-file-read|"+fk, c.FnPos(fn), "the artifact read is <config path without extension>.pem of this entity", openName)
+	// leaves of a branch condition
+	var leaves func(v ssa.Value, d int) []string
+	leaves = func(v ssa.Value, d int) []string {
+		if d > 6 {
+			return nil
+		}
+		switch x := v.(type) {
+		case *ssa.BinOp:
+			return append(leaves(x.X, d+1), leaves(x.Y, d+1)...)
+		case *ssa.UnOp:
+			if x.Op == token.NOT {
+				return leaves(x.X, d+1)
+			}
+		case *ssa.Phi:
+			var out []string
+			for _, e := range x.Edges {
+				out = append(out, leaves(e, d+1)...)
+			}
+			return out
+		}
+		return pv.Origins(v)
+	}
+	seenStore := map[*ssa.Store]bool{}
+	for _, owner := range []string{"db.Metadata", "filesystem.fsMetadata"} {
+		for _, fs := range storesIntoType(c, fn, owner) {
+			if seenStore[fs.st] {
+				continue
+			}
+			seenStore[fs.st] = true
+			f := fs.field[strings.LastIndex(fs.field, ".")+1:]
+			var o []string
+			for _, x := range pv.Origins(fs.st.Val) {
+				if x != "K(nil)" || f != "LastConfigHash" { // a nil stored hash means "none stored"
+					o = append(o, x)
+				}
+			}
+			joined := strings.Join(o, " , ")
+			switch f {
+			case "LastConfigUpdate":
+				ok := len(o) == 1 && strings.Contains(o[0], "ModTime(I:io/fs.StatFS.Stat(") && strings.Contains(o[0], "|P("+fk+".configPath))#0)")
+				r.Check(ok, "config-mtime|"+fk, c.Pos(fs.st.Pos()), "ModTime of Stat(configuration path)", joined)
+			case "LastBuild":
+				const pre = "I:os.FileInfo.ModTime(I:filesystem.Filesystem.Stat("
+				ok := len(o) == 1 && strings.HasPrefix(o[0], pre) && strings.HasSuffix(o[0], ")#0)")
+				if ok {
+					// same name as the file that is read
+					parts := splitTop(o[0][len(pre):len(o[0])-len(")#0)")], '|')
+					ok = len(parts) == 2 && parts[1] == openName
+				}
+				r.Check(ok, "artifact-mtime|"+fk, c.Pos(fs.st.Pos()), "ModTime of Filesystem.Stat(<the artifact file that is read>)", joined)
+				// recorded whenever the file could be read: not made to depend on what the file contains
+				dep := ""
+				for _, g := range guardsOf(fs.st.Block()) {
+					for _, l := range leaves(g.Cond, 0) {
+						if content != "" && strings.Contains(l, content) {
+							dep = c.Pos(g.If.Pos()) + ": " + l
+						}
+					}
+				}
+				r.Check(dep == "", "artifact-mtime-whenever-readable|"+fk, c.Pos(fs.st.Pos()), "the build time is recorded for every readable artifact file, whatever it contains (an artifact without a certificate still has a build time to compare the issuer's with)", dep)
+			case "LastConfigHash":
+				ok := len(o) == 1 && strings.HasPrefix(o[0], "(*encoding/base64.Encoding).DecodeString(G(encoding/base64.StdEncoding)|") && content != "" && strings.Contains(o[0], strings.TrimSuffix(content, "#0"))
+				r.Check(ok, "stored-hash|"+fk, c.Pos(fs.st.Pos()), "StdEncoding.DecodeString of a part of the artifact file's content", joined)
+			}
 		}
 	}
 }
